@@ -90,8 +90,8 @@ func init() {
 		}
 		sets := []CaseSet{genCorpusAllEntries(maxc), genSingleField(r, stride), genMalformed(r, nm),
 			genRandomStreams(r, "random-streams", nr, fullKnobs(), ""), genChunkedMalformed(r, nm/4), genSizeExtremes(r, nr/3),
-			genEveryFileType()}
-		return sets, "every corpus file through all six entry points; single-field definitions (every known message x listed field + one unlisted, 25 base-type bytes x sizes around the valid ones x both byte orders, sampled 1/" + strconv.Itoa(stride) + " in this tier) each followed by data; mutated and random byte strings through random entry points and read schedules; structured random streams; size-extreme definitions (counts and byte totals around 8- and 16-bit boundaries); a short well-formed file for each of the 256 file_id.type values through Decode, DecodeChained and DecodeHeaderAndFileID. Oracle: no panic, no hang (10 s per case), outcome class, bytes consumed and full dump equal the model's. distinct = distinct result lines that got past header and file_id", false
+			genEveryFileType(), genChainInherits(r, nr/10)}
+		return sets, "every corpus file through all six entry points; single-field definitions (every known message x listed field + one unlisted, 25 base-type bytes x sizes around the valid ones x both byte orders, sampled 1/" + strconv.Itoa(stride) + " in this tier) each followed by data; mutated and random byte strings through random entry points and read schedules; structured random streams; size-extreme definitions (counts and byte totals around 8- and 16-bit boundaries); a short well-formed file for each of the 256 file_id.type values through Decode, DecodeChained and DecodeHeaderAndFileID; chains whose later files define only file_id and send records of local types that only the first file defined. Oracle: no panic, no hang (10 s per case), outcome class, bytes consumed and full dump equal the model's. distinct = distinct result lines that got past header and file_id", false
 	}
 	propPost["C01"] = postNoPanic
 
@@ -122,8 +122,8 @@ func init() {
 		if thorough {
 			nf, per, nch, maxc = 200, 0, 6000, 120000
 		}
-		return []CaseSet{genChunked(r, nf, maxc, per), genChains(r, nch, maxc/2)},
-			"valid files (corpus + generated) x six entry points x read schedules {whole,1,2,3,7,13,4095,4096,4097,8192,mixed,data-with-EOF}; chains of 1-4 files with random schedules, trailing garbage, faults at the end. Oracles: bytes pulled from the reader = header+data+2 on success of Decode/CheckIntegrity and never more than the frame; result independent of the schedule; chained = per-file decode", false
+		return []CaseSet{genChunked(r, nf, maxc, per), genChains(r, nch, maxc/2), genFrameEnds(r), genChainInherits(r, nch/10)},
+			"valid files whose last record ends the data section with a zero-size skipped field (unlisted, of an unknown message, developer) or with a size-0 string, alone and in chains, under every schedule; valid files (corpus + generated) x six entry points x read schedules {whole,1,2,3,7,13,4095,4096,4097,8192,mixed,data-with-EOF}; chains of 1-4 files with random schedules, trailing garbage, faults at the end. Oracles: bytes pulled from the reader = header+data+2 on success of Decode/CheckIntegrity and never more than the frame; result independent of the schedule; chained = per-file decode", false
 	}
 	propPost["C10"] = postC10
 
@@ -170,8 +170,8 @@ func init() {
 		if thorough {
 			n = 12000
 		}
-		return []CaseSet{genOptionSets(r, n), genManyUnknown(r, 1+n/40), genUnknownChains(r, 1+n/10)},
-			"streams mixing known and unknown messages and unlisted fields, whole and cut, each under all 8 option combinations; chains of 2-4 files with different sets of unknown message numbers and unlisted fields through DecodeChained under the list-producing option sets (every file's lists are its own). Oracles: messages, error class and bytes consumed identical across option sets; lists sorted; counts equal the model's", false
+		return []CaseSet{genOptionSets(r, n), genManyUnknown(r, 1+n/40), genUnknownChains(r, 1+n/10), genUnknownTies(r, 6)},
+			"streams mixing known and unknown messages and unlisted fields, whole and cut, each under all 8 option combinations, and with the logger (a custom one, the standard one) given before or after the other options; chains of 2-4 files with different sets of unknown message numbers and unlisted fields through DecodeChained under the list-producing option sets (every file's lists are its own); the same unlisted field number in known messages whose numbers differ by 256 or whose low bytes collide, and unknown messages 256 apart (an ordering that compares truncated keys leaves ties to map order). Oracles: messages, error class and bytes consumed identical across option sets; lists sorted; counts equal the model's", false
 	}
 	propPost["C16"] = postC16
 
@@ -249,6 +249,11 @@ func postC10(res *RunResult) {
 		dr, ok2 := parseDecRes(out)
 		if !ok2 {
 			continue
+		}
+		if res.Stats.setOf[i] == "frame-ends-in-zero-size-field" && dr.tag != "ok" {
+			// these files are valid by construction (a size-0 field is skipped or stored without reading
+			// anything): one File per input, the frame consumed exactly
+			addViolation(res, c, out, "a valid file whose last record ends the data section with a zero-size field is rejected by "+dc.entry)
 		}
 		if fl, ok := frameLen(dc.data); ok && !strings.Contains(dc.rspec, "f") {
 			if (dc.entry == "decode" || dc.entry == "integ") && dr.tag == "ok" && dr.consumed != fl {
@@ -603,7 +608,7 @@ func genUndefinedLocal(r *rng, n int) CaseSet {
 		w.Write(fileIdRecs(4, byte(r.intn(2))))
 		l := byte(1 + r.intn(15))
 		if r.chance(50) {
-			w.define(defn{local: l, global: 20, fields: []fdef{{3, 1, 2}}})
+			w.define(defn{local: l, global: 20, fields: []fdef{{3, 1, 2}}, hbits: byte(0x10 * r.intn(2))})
 		}
 		other := byte(r.intn(16))
 		if r.chance(50) {
@@ -631,8 +636,8 @@ func genUndefinedLocal(r *rng, n int) CaseSet {
 		}
 		if r.chance(60) {
 			l := byte(r.intn(16))
-			w.define(defn{local: l, global: 20, fields: []fdef{{3, 1, 2}}})
-			w.data(l, []byte{70})
+			w.define(defn{local: l, global: 20, fields: []fdef{{3, 1, 2}}, hbits: byte(0x10 * r.intn(2))})
+			w.dataX(l, byte(0x10*r.intn(4)), []byte{70})
 		}
 		e := []string{"decode", "headerfid", "chained", "decode"}[i%4]
 		cs.Cases = append(cs.Cases, decCase(e, "000", "-", "-", frame(w.Bytes(), randFrame(r))))
@@ -705,6 +710,13 @@ func genOptionSets(r *rng, n int) CaseSet {
 		}
 		for _, o := range allOpts {
 			cs.Cases = append(cs.Cases, decCase(entry, o, spec, "-", data))
+		}
+		// the logger given after the other options, and the standard logger in either position: the
+		// order of the options must not matter
+		if i%4 == 0 {
+			for _, o := range []string{"211", "311", "411", "210", "401", "300", "400"} {
+				cs.Cases = append(cs.Cases, decCase(entry, o, spec, "-", data))
+			}
 		}
 	}
 	return cs
@@ -796,6 +808,84 @@ func genUnknownChains(r *rng, n int) CaseSet {
 		}
 		for _, o := range []string{"011", "111", "001", "010"} {
 			cs.Cases = append(cs.Cases, decCase("chained", o, "-", "-", chain))
+		}
+	}
+	return cs
+}
+
+// genFrameEnds: valid files whose last record ends exactly at the end of the data section with a
+// field of size 0 that the decoder skips (an unlisted field of a known message, a field of an unknown
+// message, a developer field) or stores (a size-0 string): nothing may be requested from the reader
+// for it, and the frame must be consumed exactly — alone, followed by another file, under any schedule.
+func genFrameEnds(r *rng) CaseSet {
+	cs := CaseSet{Name: "frame-ends-in-zero-size-field"}
+	var files [][]byte
+	for _, fo := range []frameOpts{defaultFrame(), {hdrSize: 12, proto: 0x10, profile: 100}} {
+		mk := func(d defn, payload []byte) {
+			w := &sw{}
+			w.Write(fileIdRecs(4, byte(r.intn(2))))
+			w.define(d)
+			w.data(d.local, payload)
+			files = append(files, frame(w.Bytes(), fo))
+		}
+		mk(defn{local: 1, global: 20, fields: []fdef{{3, 1, 0x02}, {250, 0, 0x07}}}, []byte{70})
+		mk(defn{local: 3, global: 0xFF00, fields: []fdef{{0, 1, 0x02}, {1, 0, 0x07}}}, []byte{1})
+		mk(defn{local: 4, global: 0xFF01, fields: []fdef{{1, 0, 0x07}}}, nil)
+		mk(defn{local: 5, global: 20, devBit: true, fields: []fdef{{3, 1, 0x02}}, dev: []ddesc{{0, 0, 0}}}, []byte{72})
+	}
+	for _, f := range files {
+		for _, spec := range []string{"-", schedules[1%len(schedules)], schedules[3%len(schedules)], schedules[len(schedules)-1]} {
+			for _, e := range []string{"decode", "integ", "chained"} {
+				cs.Cases = append(cs.Cases, decCase(e, "000", spec, "-", f))
+			}
+		}
+		two := append(append([]byte{}, f...), files[r.intn(len(files))]...)
+		cs.Cases = append(cs.Cases, decCase("chained", "000", "-", "-", two), decCase("decode", "011", "-", "-", two))
+	}
+	return cs
+}
+
+// genUnknownTies: the same unlisted field number in several known messages whose global numbers are
+// equal modulo 256 (device_settings 2 / dive_settings 258, user_profile 3 / dive_gas 259, sport 12 /
+// dive_summary 268 ...), and unknown messages 256 and 65280 apart, each stream decoded several times:
+// a comparison on packed or truncated keys makes such entries tie, and their order is then whatever
+// the map iteration gave.
+func genUnknownTies(r *rng, reps int) CaseSet {
+	cs := CaseSet{Name: "unknown-items-with-colliding-keys"}
+	known := map[int]bool{}
+	for _, m := range theFacts().Msgs {
+		if m.Known {
+			known[m.Num] = true
+		}
+	}
+	var pairs [][2]int
+	for a := range known {
+		if known[a+256] {
+			pairs = append(pairs, [2]int{a, a + 256})
+		}
+	}
+	sort.Slice(pairs, func(i, j int) bool { return pairs[i][0] < pairs[j][0] })
+	for pi, pr := range pairs {
+		if pi >= 6 {
+			break
+		}
+		var b recs
+		b.Write(fileIdRecs(4, 0))
+		fnum := byte(200 + r.intn(40))
+		for k, g := range []int{pr[1], pr[0], pr[1], pr[0]} {
+			l := byte(1 + k)
+			b.def(defn{local: l, global: uint16(g), fields: []fdef{{fnum, 1, 0x02}, {fnum + 1, 1, 0x02}}})
+			b.data(l, []byte{byte(k), byte(k + 1)})
+		}
+		// unknown messages whose numbers collide in the low byte
+		for k, g := range []int{0xFE10, 0xFD10, 0xFF10, 0xFE10} {
+			l := byte(8 + k)
+			b.def(defn{local: l, global: uint16(g), fields: []fdef{{0, 1, 0x02}}})
+			b.data(l, []byte{byte(k)})
+		}
+		data := frame(b.Bytes(), randFrame(r))
+		for i := 0; i < reps; i++ {
+			cs.Cases = append(cs.Cases, decCase([]string{"decode", "chained"}[i%2], []string{"011", "111"}[i%2], []string{"-", "s:7", "s:4096"}[i%3], "-", data))
 		}
 	}
 	return cs
@@ -920,3 +1010,77 @@ func postC18(res *RunResult) {
 }
 
 func sortStrings(a []string) { sort.Strings(a) }
+
+// genChainInherits: chains in which a later file leans on what an earlier one left behind. The first
+// file defines all sixteen local types (known messages, unknown messages, developer fields); the
+// files after it define only file_id — on a local type of their own choosing — and then send data
+// records (plain and compressed-timestamp headers) of local types they never defined — also in the
+// place of the file_id message itself, right after its definition. Every file of
+// a chain starts from nothing: those records are errors ("missing definition"), never panics, and
+// never decoded with the previous file's definitions.
+func genChainInherits(r *rng, n int) CaseSet {
+	cs := CaseSet{Name: "chain-later-file-uses-earlier-definitions"}
+	for i := 0; i < n; i++ {
+		var a recs
+		a.Write(fileIdRecs(4, byte(r.intn(2))))
+		for l := byte(1); l < 16; l++ {
+			var d defn
+			switch r.intn(4) {
+			case 0: // record with heart_rate
+				d = defn{local: l, global: 20, fields: []fdef{{3, 1, 0x02}}}
+			case 1: // unknown message
+				d = defn{local: l, global: uint16(0xFF00 + r.intn(200)), fields: []fdef{{0, 1, 0x02}}}
+			case 2: // unknown message with a timestamp
+				d = defn{local: l, global: uint16(0xFE00 + r.intn(200)), fields: []fdef{{253, 4, 0x86}}}
+			default: // record with a developer field
+				d = defn{local: l, global: 20, devBit: true, fields: []fdef{{3, 1, 0x02}}, dev: []ddesc{{0, 1, 0}}}
+			}
+			d.arch = byte(r.intn(2))
+			a.def(d)
+			sz := 0
+			for _, f := range d.fields {
+				sz += int(f.size)
+			}
+			for _, f := range d.dev {
+				sz += int(f.size)
+			}
+			a.data(l, r.bytes(sz))
+		}
+		first := frame(a.Bytes(), randFrame(r))
+		thin := func() []byte {
+			var b recs
+			fl := byte(r.intn(16))
+			b.def(defn{local: fl, arch: byte(r.intn(2)), global: 0, fields: []fdef{{0, 1, 0x00}}})
+			if r.chance(40) {
+				// the record that should be the file_id message is of another local type
+				b.data((fl+1+byte(r.intn(15)))&15, r.bytes(1+r.intn(5)))
+			}
+			b.data(fl, []byte{byte(r.intn(40))})
+			for k, nrec := 0, 1+r.intn(3); k < nrec; k++ {
+				l := byte(r.intn(16))
+				if l == fl {
+					l = (l + 1) & 15
+				}
+				if r.chance(25) {
+					b.cdata(l&3, byte(r.intn(32)), r.bytes(1+r.intn(4)))
+				} else {
+					b.data(l, r.bytes(1+r.intn(5)))
+				}
+			}
+			return frame(b.Bytes(), randFrame(r))
+		}
+		chain := append([]byte{}, first...)
+		for k, nthin := 0, 1+r.intn(2); k < nthin; k++ {
+			chain = append(chain, thin()...)
+		}
+		if r.chance(30) {
+			chain = append(chain, first...)
+		}
+		spec := randSched(r)
+		cs.Cases = append(cs.Cases, decCase("chained", []string{"000", "011", "111"}[r.intn(3)], spec, "-", chain))
+		if r.chance(30) {
+			cs.Cases = append(cs.Cases, decCase("decode", "000", spec, "-", chain[len(first):]))
+		}
+	}
+	return cs
+}
